@@ -108,6 +108,10 @@ def true_positive_rate(y_true, y_pred, sample_weight=None, pos_label=None) -> fl
         The true positive rate for the data
     """
     unique_labels = _get_labels_for_confusion_matrix(np.vstack((y_true, y_pred)), pos_label)
+    if sample_weight is not None:
+        # integer weights are accumulated in int64 by confusion_matrix and wrap around
+        # once their total exceeds the int64 range
+        sample_weight = np.asarray(sample_weight, dtype=np.float64)
     tnr, fpr, fnr, tpr = skm.confusion_matrix(
         y_true,
         y_pred,
@@ -145,6 +149,10 @@ def true_negative_rate(y_true, y_pred, sample_weight=None, pos_label=None) -> fl
         The true negative rate for the data
     """
     unique_labels = _get_labels_for_confusion_matrix(np.vstack((y_true, y_pred)), pos_label)
+    if sample_weight is not None:
+        # integer weights are accumulated in int64 by confusion_matrix and wrap around
+        # once their total exceeds the int64 range
+        sample_weight = np.asarray(sample_weight, dtype=np.float64)
     tnr, fpr, fnr, tpr = skm.confusion_matrix(
         y_true,
         y_pred,
@@ -182,6 +190,10 @@ def false_positive_rate(y_true, y_pred, sample_weight=None, pos_label=None) -> f
         The false positive rate for the data
     """
     unique_labels = _get_labels_for_confusion_matrix(np.vstack((y_true, y_pred)), pos_label)
+    if sample_weight is not None:
+        # integer weights are accumulated in int64 by confusion_matrix and wrap around
+        # once their total exceeds the int64 range
+        sample_weight = np.asarray(sample_weight, dtype=np.float64)
     tnr, fpr, fnr, tpr = skm.confusion_matrix(
         y_true,
         y_pred,
@@ -219,6 +231,10 @@ def false_negative_rate(y_true, y_pred, sample_weight=None, pos_label=None) -> f
         The false negative rate for the data
     """
     unique_labels = _get_labels_for_confusion_matrix(np.vstack((y_true, y_pred)), pos_label)
+    if sample_weight is not None:
+        # integer weights are accumulated in int64 by confusion_matrix and wrap around
+        # once their total exceeds the int64 range
+        sample_weight = np.asarray(sample_weight, dtype=np.float64)
     tnr, fpr, fnr, tpr = skm.confusion_matrix(
         y_true,
         y_pred,
